@@ -26,6 +26,11 @@ type C10 struct {
 	preCons  map[string]*world.ConsObs
 	pre      *eligSnap
 
+	// Relaxed is set by C19: a fault was injected into a launch of this block, so a launch that would
+	// otherwise have to succeed may fail (it must still leave no residue)
+	Relaxed func(w *world.World) bool
+	Prop    string
+
 	okLaunch, failLaunch, resched, over200 bool
 	everLaunched map[string]bool
 	everDeleted  map[string]bool
@@ -226,7 +231,7 @@ func (m *C10) After(w *world.World, a *world.Action, r *world.StepResult) *Viola
 				if mustFail != "" && ph == world.PhLaunched {
 					return violf(P, "launch-should-fail", "consumer %s launched although %s", id, mustFail)
 				}
-				if mustSucceed != "" && ph != world.PhLaunched {
+				if mustSucceed != "" && ph != world.PhLaunched && !(m.Relaxed != nil && m.Relaxed(w)) {
 					return violf(P, "launch-should-succeed", "consumer %s did not launch although %s", id, mustSucceed)
 				}
 			}
